@@ -1377,7 +1377,11 @@ LEVEL_TEXT = ('Lean 4 theorems about Model.Mode (the hand-written mirror of crys
               'SP 800-38A reference and the appendix F vectors on the real code. One CTR object used repeatedly is modelled as a step machine '
               '(Model.Mode.CTR.Obj): its enc/dec results are proved to depend on the counter block in force and the message only '
               '(ctr_history_independent, ctr_after_setup, ctr_after_assign, ctr_obj_spec), and the stream drives the real object and the '
-              'machine through the same histories.')
+              'machine through the same histories. One ECB / CBC / CTS object used repeatedly is the step machine Model.Mode.Seq.Obj (the state of '
+              'its padding object): every call returns what it returns as the only call on a new object, for every padding scheme except '
+              'Nullpadding (modeseq_dec_ignores_pad_state, modeseq_history_independent), and dec of an EARLIER ciphertext after any calls in '
+              'between gives the message back (modeseq_ecb_dec_earlier, modeseq_cbc_dec_earlier, modeseq_cts_dec_earlier); the modeseq lines '
+              'drive the real object and the machine through the same histories (Nullpadding included, code <-> model).')
 LEVEL_NOTE = ('Trusted: Lean kernel; axioms within {propext, Classical.choice, Quot.sound}; Spec.Mode/Spec.ModePad as renderings of SP 800-38A, its '
               'addendum and the padding methods (Spec.ModePad proved equal to Spec.Padding on byte strings; appendix F.1.1/F.2.1/F.5.1 evaluated '
               'through Spec.Mode over Spec.Aes in the kernel); Spec.Aes/Des/Serpent/Threefish; extract.py/runcheck.py/props/C05.py. '
